@@ -99,7 +99,7 @@ pub fn monitor(out: &RunOut) -> MonOut {
             let r = &h[i];
             let site = format!("L{}@{}", l.life, i);
             match &r.kind {
-                Kind::NeighbourMutate { app, hint } => {
+                Kind::NeighbourMutate { app, hint, .. } => {
                     m.count("R2.embedder_changes_an_app");
                     if let Some(md) = &mut model {
                         // the library may have read the app set for persisting just before this change
